@@ -353,6 +353,9 @@ def exec_sums(ctx, case):
 
     spec = G.spec_from_recipe(case["tree"])
     tree = G.build(spec)
+    if case["tree"]["seed"] % 4 == 1:
+        # a tree the library derived (sorted / re-rooted / grown by a merged node) from a used one
+        tree, spec = G.derive(tree, spec, int(case["tree"]["seed"]))
     r = spec["r"].astype(np.float64)
     xyz = np.stack([spec["x"], spec["y"], spec["z"]], axis=1).astype(np.float64)
     pid = spec["pid"]
